@@ -482,6 +482,52 @@ def _moves(job, ctx):
             ctx.case(tuple(map(str, key)), "standalone:%s" % how, True)
             judge(ctx, job, key, "C15|moves|%s|standalone|%s" % (kind, how) + ("|warm" if warm else ""),
                   "%s leaf, stand-alone configuration attached by %s" % (kind, how), exc, want, None)
+    # stand-alone configurations that fail their *own* validation when they are inserted (required field never set)
+    for how in ("append", "assign-list", "insert", "setitem", "iadd", "ctor"):
+        for where in ("item.r", "item.inner"):
+            key = ["standalone-invalid", how, where]
+            if only is not None and only != key:
+                continue
+            schema, ok = build(kind)
+            okv = V.dec(ok)
+            if isinstance(okv, bytes):
+                import base64
+                okv = base64.b64encode(okv).decode()
+            cfg = schema()
+            cfg.items = [{"c": okv, "r": "first", "inner": {"e": okv}}]
+            obj = schema._fields["items"].field()
+            if where == "item.r":
+                obj._data["r"] = None           # required, never set
+                want_tail = "r"
+            else:
+                obj.r = "x"
+                bad = V.dec(bads[0])
+                obj.inner._data["e"] = bad      # a value that its field rejects, placed without validation
+                want_tail = None
+            ctx.transitions += 1
+            if how == "append":
+                exc, idx = attempt(lambda: cfg.items.append(obj)), 1
+            elif how == "assign-list":
+                exc, idx = attempt(lambda: setattr(cfg, "items", [obj])), 0
+            elif how == "insert":
+                exc, idx = attempt(lambda: cfg.items.insert(0, obj)), None
+            elif how == "setitem":
+                exc, idx = attempt(lambda: cfg.items.__setitem__(0, obj)), None
+            elif how == "iadd":
+                def f():
+                    cfg.items += [obj]
+                exc, idx = attempt(f), 1
+            else:
+                exc, idx = attempt(lambda: schema(items=[obj])), 0
+            ctx.case(tuple(key), "standalone-invalid:%s:%s" % (how, type(exc).__name__ if exc else "accepted"), True)
+            if where == "item.inner":
+                continue      # only the required-field case has a determined path
+            if idx is None:
+                # the position reported for an item that is being inserted is not determined by the statement: any index
+                loose = ["items[%d].r" % i for i in range(3)]
+                judge(ctx, job, key, "C15|moves|%s|standalone-invalid|%s" % (kind, how), "stand-alone item without its required field via %s" % how, exc, loose[0], None, loose=loose)
+            else:
+                judge(ctx, job, key, "C15|moves|%s|standalone-invalid|%s" % (kind, how), "stand-alone item without its required field via %s" % how, exc, "items[%d].r" % idx, None)
     # typed dict with arbitrary keys (Python routes only): the key is named whatever its type
     for k in ("k", 5, ("r", "c"), ("a",), None, 1.5, True):
         key = ["anykey", repr(k)]
